@@ -108,6 +108,27 @@ def run(prog, ctx):
             else:
                 res.discharged += 1
     res.rule("C11.M", n_m, 1, "state-changing calls inside `&mut self` writers")
+    # ---------------- C11.A crossed arguments on the codec paths: a reader or writer that hands its local `x` to the callee's
+    # parameter `y` and its local `y` to the parameter `x` (same type) decodes one field as the other
+    entries = []
+    for fam in sorted(specfmt.FAMILIES):
+        if ctx.get("families") and fam not in ctx["families"]:
+            continue
+        for side in ("writer", "reader"):
+            e_ = C.pub_fn(prog, *specfmt.FAMILIES[fam][side])
+            if e_ is not None:
+                entries.append(e_)
+    codec_fns = [g for g in C.reach_from(prog, entries) if not g.id.startswith(("core::", "std::", "alloc::"))]
+    n_a = 0
+    for g in codec_fns:
+        n_a += sum(1 for b_, st_ in g.calls() if st_.get("callee") in prog.fns and prog.fns[st_["callee"]].argc >= 2)
+    for (f_, b_, g_, i_, j_, names) in C.swapped_arguments(prog, codec_fns):
+        res.obligations += 1
+        res.violate("C11.A", "C11.A|%s->%s|%s/%s" % (f_.id, g_.id, names[0], names[1]), "%s passes its `%s` as parameter `%s` of %s and its `%s` as parameter `%s` (two arguments of the same type are crossed)" % (
+            f_.id, names[1], names[0], g_.id, names[0], names[1]), f_.id, f_.blocks[b_].term[1].get("span"))
+    res.obligations += 1
+    res.discharged += 1
+    res.rule("C11.A", n_a, 50, "in-crate calls with two or more arguments on the codec paths (crossed-argument lint)")
     if "undecided_reasons" in res.extra:
         res.extra["undecided_reasons"] = sorted(res.extra["undecided_reasons"])[:12]
     res.rule("C11.L", total, 50, "abstract states x families round-tripped through the writer and reader models")
